@@ -21,8 +21,14 @@ Definition proj_eqb (m obs : projection) : bool :=
   else Bool.eqb ok1 ok2 && Bool.eqb g1 g2 && Bool.eqb p1 p2 && Bool.eqb s1 s2 &&
        implb f1 f2 && implb f2 (f1 || p2 || g2).
 
+(* The model's prediction is computed under the interpretation that takes the FIRST alternative of every data-dependent branch
+   and never leaves a loop early -- by the convention of Model/Draws.v the alternative that draws.  The convention is checked
+   per case: under the OPPOSITE interpretation (second alternatives, every loop left at once) the skeleton may only draw from
+   generators the first interpretation also draws from, may only move the global state if the first does, and fails only if
+   the first does -- so the first run is the maximal one and the exact comparison with it is justified. *)
 Definition agree (c : case) : bool :=
-  let '(_, e, o, a, obs) := c in proj_eqb (model_projection e o a) obs.
+  let '(_, e, o, a, obs) := c in
+  proj_eqb (model_projection e o a) obs && proj_le (model_projection_alt e o a) (model_projection e o a).
 Definition ident (c : case) : nat := let '(i, _, _, _, _) := c in i.
 Definition failing := failing_ids agree ident.
 
